@@ -1,87 +1,270 @@
 import EV.Model.Merkle
 
 /-
-Model of the header merkle cache (`DB.header_mc : MerkleCache` over `DB.fs_block_hashes`) under
-concurrency with a chain reorganisation (C11, F7).
+Model of the header merkle cache (`DB.header_mc : MerkleCache` over `DB.fs_block_hashes`) with any
+number of concurrent header-proof requests and chain reorganisations (C11; F7, F17, F18, F19).
 
-`MerkleCache._extend_to` is cut at its `await self.source_func(...)`:
-  `extStart`  – the coroutine decides to extend and remembers `start`, the target length and (fixed
-                code) the truncation counter;
-  `extRead`   – the worker thread reads the hashes from the DB as it is *at that moment*;
-  `extFinish` – the coroutine resumes: fixed code writes only if no `truncate()` ran in between and
-                otherwise starts over; the pinned code (`Orig`) writes unconditionally.
-`backup n` = `backup_fs` of a reorg: the DB keeps its first `n` block hashes and
-`header_mc.truncate(n)` runs (in the worker thread); `append` = blocks advanced and flushed.
+Code modelled, literally:
+  session.py  `_merkle_proof`           range check `height <= cp_height <= db.state.height`
+  db.py       `header_branch_and_root`, `fs_block_hashes`, `read_headers` (bounded by
+              `DB.state.height` *when the worker thread runs*), `flush_backup` / `backup_fs`
+              (lowering `DB.state` and `header_mc.truncate(height + 1)`, in the order of the code)
+  merkle.py   `MerkleCache.branch_and_root`, `_extend_to`, `_level_for`, `truncate`
+
+The DB side.  `src` is the list of block hashes a reader can see (`fs_block_hashes` can return
+`src[a : a+n]` and nothing beyond: `read_headers` clips at `DB.state.height`).  A back-out
+(`flush_backup`, one worker-thread job) is two events `boBegin n`, `boEnd` — lowering the state
+(`src := src.take n`) and `truncate(n)` (+ `truncations += 1`) in the order given by
+`Cfg.lowerFirst`; event-loop steps and other worker threads run between the two.  `append` (new
+blocks flushed, `DB.state` raised) only happens when no back-out is half done (the block processor
+awaits the job).
+
+A request is a program counter over the awaits of `branch_and_root`.  Every
+`await self.source_func(start, count)` is cut into
+  issue    (the coroutine evaluates `start`, `count` and suspends;  `Rd.issued`)
+  perform  (`Ev.perform i`: the worker thread runs `read_headers`: it returns
+            `min(count, len(src) - start)` headers of `src` *as it is then*; `Rd.got` if that is
+            `count`, `Rd.short` otherwise)
+  deliver  (`Ev.deliver i`: the coroutine resumes — `fs_block_hashes` raises `DBError` on a short
+            read — and runs to its next await or to its end).
+`Cfg` selects the variants of the code: all `true` = the current (fixed) code.
+  extFix = false     `_extend_to` as pinned: `if length <= self.length: return` once, then
+                     `while True:` read; `if truncations == self.truncations: break`; write
+                     unconditionally (F17: no `cached_length == self.length` test)
+  retry = false      `branch_and_root` as pinned: one pass, no truncation check at the end (F19)
+  lowerFirst = false `flush_backup` as pinned: `backup_fs` truncates first, `DB.state` is lowered
+                     at the end of `flush_utxo_db` (F18)
+Ghost fields (never read by a transition): `St.ref`, `Req.seen`, `Req.bo`.
 No imports beyond the Merkle model (linked into `evdrv`).
 -/
 namespace EV.HeaderCache
 open EV.Merkle
 
-variable {Node : Type} (H : Node → Node → Node)
+structure Cfg where
+  extFix : Bool := true
+  retry : Bool := true
+  lowerFirst : Bool := true
+deriving Repr, DecidableEq
 
-/-- an extension of the cache in flight -/
-structure Ext (Node : Type) where
-  target : Nat
-  start : Nat
-  truncAtStart : Nat
-  hashes : Option (List Node) := none     -- `none`: the worker has not read yet
+/-- the current code -/
+def Cfg.fixed : Cfg := {}
+
+inductive Err where
+  | dbError                 -- `DB.DBError`: fewer headers on disk than asked for
+  | py (e : PyExc)          -- raised inside merkle.py
+deriving Repr, DecidableEq
+
+/-- how a request ends -/
+inductive Res (Node : Type) where
+  | answer (br : List (Elt Node)) (root : Node)
+  | error (e : Err)
+  | refused                 -- `RPCError(BAD_REQUEST)` of the range check
+deriving Repr, DecidableEq
+
+/-- an `await source_func(start, count)` -/
+inductive Rd (Node : Type) where
+  | issued
+  | got (hs : List Node)
+  | short
+deriving Repr, DecidableEq
+
+inductive PC (Node : Type) where
+  /-- in `_extend_to`, at `hashes = await self.source_func(start, length - start)`;
+      `t`, `cl` = the locals `truncations`, `cached_length` -/
+  | ext (t cl start : Nat) (rd : Rd Node)
+  /-- in `branch_and_root`, at `leaf_hashes = await self.source_func(leaf_start, count)` -/
+  | leaf (rd : Rd Node)
+  /-- in `_level_for`, at `hashes = await self.source_func(leaf_start, count)`; `pre` = the local
+      `level = self.level[:length >> self.depth_higher]`, `leaf` = the caller's `leaf_hashes` -/
+  | lvl (pre leaf : List Node) (rd : Rd Node)
+  | done (r : Res Node)
+deriving Repr, DecidableEq
+
+structure Req (Node : Type) where
+  length : Nat              -- `cp_height + 1`
+  index : Nat               -- `height`
+  t0 : Nat                  -- `truncations` at the top of the current `while True:` iteration
+  pc : PC Node
+  /-- ghost: the values of `src` from the request's start to its end, newest first -/
+  seen : List (List Node)
+  /-- ghost: some back-out was half done, began or ended while the request was active -/
+  bo : Bool
 
 structure St (Node : Type) where
   c : Cache Node := {}
   truncations : Nat := 0
-  src : List Node := []                   -- the DB's block hashes, by height
-  ext : Option (Ext Node) := none
+  src : List Node := []
+  /-- `some n`: a back-out to `n` hashes has done its first half -/
+  pending : Option Nat := none
+  reqs : List (Req Node) := []
+  /-- ghost: the chain the cache is judged against: `src`, and between the two halves of a
+      back-out the chain before it -/
+  ref : List Node := []
 
 inductive Ev (Node : Type) where
-  | extStart (length : Nat)
-  | extRead
-  | extFinish
-  | backup (n : Nat)
+  | start (cp height : Nat)
+  | perform (i : Nat)
+  | deliver (i : Nat)
+  | boBegin (n : Nat)
+  | boEnd
   | append (ns : List Node)
+deriving Repr
 
-/-- the two assignments at the end of `_extend_to` -/
-def writeExt (c : Cache Node) (e : Ext Node) (hs : List Node) : Cache Node :=
-  match Merkle.level H hs c.depthHigher with
-  | .error _ => c
-  | .ok lv => { c with level := c.level.take (e.start >>> c.depthHigher) ++ lv, length := e.target }
+variable {Node : Type} (H : Node → Node → Node)
 
-/-- one step; `fixed = false` is the pinned code -/
-def step (fixed : Bool) (s : St Node) : Ev Node → St Node
-  | .extStart l =>
-    if l ≤ s.c.length then s
-    else match s.ext with
-      | some _ => s       -- one extension in flight at a time in this model
-      | none => { s with ext := some { target := l, start := s.c.leafStart s.c.length,
-                                        truncAtStart := s.truncations } }
-  | .extRead =>
-    match s.ext with
-    | some e =>
-      match e.hashes with
-      | some _ => s
-      | none =>
-        if e.target ≤ s.src.length then
-          { s with ext := some { e with hashes := some (srcSlice s.src e.start (e.target - e.start)) } }
-        else { s with ext := none }     -- DBError: not enough headers; the request fails
+def Req.active (r : Req Node) : Bool :=
+  match r.pc with
+  | .done _ => false
+  | _ => true
+
+/-- ghost bookkeeping when `src` changes / a back-out event happens -/
+def Req.see (S : List Node) (r : Req Node) : Req Node :=
+  if r.active then { r with seen := S :: r.seen } else r
+
+def Req.markBo (r : Req Node) : Req Node :=
+  if r.active then { r with bo := true } else r
+
+/-- `_extend_to` at its test of `self.length` (entry of the pinned code, loop condition of the
+    fixed code): either nothing to do — the caller goes on to issue its leaf read — or the
+    extension read is issued -/
+def enterExtend (c : Cache Node) (T : Nat) (r : Req Node) : Req Node :=
+  if r.length ≤ c.length then { r with pc := .leaf .issued }
+  else { r with pc := .ext T c.length (c.leafStart c.length) .issued }
+
+/-- top of an iteration of `branch_and_root`: `truncations = self.truncations`, `_extend_to` -/
+def beginIter (c : Cache Node) (T : Nat) (r : Req Node) : Req Node :=
+  enterExtend c T { r with t0 := T }
+
+/-- `self.level[start >> self.depth_higher:] = lv; self.length = length` -/
+def writeExt (c : Cache Node) (start length : Nat) (lv : List Node) : Cache Node :=
+  { c with level := c.level.take (start >>> c.depthHigher) ++ lv, length := length }
+
+/-- the end of an iteration: an exception propagates; a result is returned — by the fixed code only
+    if no truncation happened since the top of the iteration, otherwise it starts over -/
+def finish (cfg : Cfg) (c : Cache Node) (T : Nat) (r : Req Node)
+    (res : Except PyExc (List (Elt Node) × Node)) : Req Node :=
+  match res with
+  | .error e => { r with pc := .done (.error (.py e)) }
+  | .ok x =>
+    if cfg.retry && (T != r.t0) then beginIter c T r
+    else { r with pc := .done (.answer x.1 x.2) }
+
+/-- the coroutine of request `r` resumes with the result of its read and runs to its next await -/
+def deliverReq [DecidableEq Node] (cfg : Cfg) (c : Cache Node) (T : Nat) (r : Req Node) :
+    Cache Node × Req Node :=
+  match r.pc with
+  | .ext t cl start (.got hs) =>
+    if cfg.extFix then
+      if t = T ∧ cl = c.length then
+        match Merkle.level H hs c.depthHigher with
+        | .error e => (c, { r with pc := .done (.error (.py e)) })
+        | .ok lv => (writeExt c start r.length lv, enterExtend (writeExt c start r.length lv) T r)
+      else (c, enterExtend c T r)
+    else
+      if t = T then
+        match Merkle.level H hs c.depthHigher with
+        | .error e => (c, { r with pc := .done (.error (.py e)) })
+        | .ok lv => (writeExt c start r.length lv, { r with pc := .leaf .issued })
+      else if r.length < c.leafStart c.length then
+        -- `read_headers(start, count)` with `count < 0` raises `DBError` at once
+        (c, { r with pc := .done (.error .dbError) })
+      else (c, { r with pc := .ext T c.length (c.leafStart c.length) .issued })
+  | .ext _ _ _ .short => (c, { r with pc := .done (.error .dbError) })
+  | .leaf (.got hs) =>
+    if r.length < c.segLen then
+      (c, finish cfg c T r (branchAndRoot H hs (.int r.index) none false))
+    else if r.length = c.length then
+      (c, finish cfg c T r
+        (branchAndRootFromLevel H (.list c.level) (.list hs) (.int r.index) c.depthHigher false))
+    else (c, { r with pc := .lvl (c.level.take (r.length >>> c.depthHigher)) hs .issued })
+  | .leaf .short => (c, { r with pc := .done (.error .dbError) })
+  | .lvl pre leaf (.got hs) =>
+    match Merkle.level H hs c.depthHigher with
+    | .error e => (c, { r with pc := .done (.error (.py e)) })
+    | .ok lv =>
+      (c, finish cfg c T r
+        (branchAndRootFromLevel H (.list (pre ++ lv)) (.list leaf) (.int r.index) c.depthHigher false))
+  | .lvl _ _ .short => (c, { r with pc := .done (.error .dbError) })
+  | _ => (c, r)
+
+/-- `(start, count)` of the read request `r` is waiting for a worker thread to perform -/
+def readArgs (c : Cache Node) (r : Req Node) : Option (Nat × Nat) :=
+  match r.pc with
+  | .ext _ _ start .issued => some (start, r.length - start)
+  | .leaf .issued => some (c.leafStart r.index, min c.segLen (r.length - c.leafStart r.index))
+  | .lvl _ _ .issued => some (c.leafStart r.length, min c.segLen (r.length - c.leafStart r.length))
+  | _ => none
+
+def setRd (pc : PC Node) (rd : Rd Node) : PC Node :=
+  match pc with
+  | .ext t cl s _ => .ext t cl s rd
+  | .leaf _ => .leaf rd
+  | .lvl p l _ => .lvl p l rd
+  | .done r => .done r
+
+/-- `read_headers` in the worker thread: `disk_count = max(0, min(count, state.height + 1 - start))`;
+    `fs_block_hashes` accepts only `disk_count == count` -/
+def readSrc (src : List Node) (start count : Nat) : Rd Node :=
+  if count ≤ src.length - start then .got (srcSlice src start count) else .short
+
+def performReq (c : Cache Node) (src : List Node) (r : Req Node) : Req Node :=
+  match readArgs c r with
+  | none => r
+  | some x => { r with pc := setRd r.pc (readSrc src x.1 x.2) }
+
+/-- a new request: the range check of `_merkle_proof`, then `branch_and_root` to its first await -/
+def newReq (c : Cache Node) (T : Nat) (src : List Node) (halfDone : Bool) (cp height : Nat) : Req Node :=
+  if height ≤ cp ∧ cp < src.length then
+    beginIter c T { length := cp + 1, index := height, t0 := T, pc := .done .refused, seen := [src], bo := halfDone }
+  else { length := cp + 1, index := height, t0 := T, pc := .done .refused, seen := [src], bo := halfDone }
+
+def step [DecidableEq Node] (cfg : Cfg) (s : St Node) : Ev Node → St Node
+  | .start cp height =>
+    { s with reqs := s.reqs ++ [newReq s.c s.truncations s.src s.pending.isSome cp height] }
+  | .perform i =>
+    match s.reqs[i]? with
     | none => s
-  | .extFinish =>
-    match s.ext with
-    | some e =>
-      match e.hashes with
-      | none => s
-      | some hs =>
-        if fixed && e.truncAtStart != s.truncations then
-          -- a truncation happened whilst waiting: start over
-          if e.target ≤ s.c.length then { s with ext := none }
-          else { s with ext := some { target := e.target, start := s.c.leafStart s.c.length,
-                                      truncAtStart := s.truncations } }
-        else { s with c := writeExt H s.c e hs, ext := none }
+    | some r => { s with reqs := s.reqs.set i (performReq s.c s.src r) }
+  | .deliver i =>
+    match s.reqs[i]? with
     | none => s
-  | .backup n =>
-    if 0 < n ∧ n < s.src.length then
-      { s with src := s.src.take n, c := (s.c.truncate (.int n)).1, truncations := s.truncations + 1 }
+    | some r =>
+      { s with c := (deliverReq H cfg s.c s.truncations r).1,
+               reqs := s.reqs.set i (deliverReq H cfg s.c s.truncations r).2 }
+  | .boBegin n =>
+    if s.pending = none ∧ 0 < n ∧ n < s.src.length then
+      if cfg.lowerFirst then
+        { s with src := s.src.take n, pending := some n,
+                 reqs := s.reqs.map (fun r => (r.see (s.src.take n)).markBo) }
+      else
+        { s with c := (s.c.truncate (.int n)).1, truncations := s.truncations + 1, pending := some n,
+                 reqs := s.reqs.map Req.markBo }
     else s
-  | .append ns => { s with src := s.src ++ ns }
+  | .boEnd =>
+    match s.pending with
+    | none => s
+    | some n =>
+      if cfg.lowerFirst then
+        { s with c := (s.c.truncate (.int n)).1, truncations := s.truncations + 1, pending := none,
+                 ref := s.src, reqs := s.reqs.map Req.markBo }
+      else
+        { s with src := s.src.take n, pending := none, ref := s.src.take n,
+                 reqs := s.reqs.map (fun r => (r.see (s.src.take n)).markBo) }
+  | .append ns =>
+    if s.pending = none then
+      { s with src := s.src ++ ns, ref := s.src ++ ns, reqs := s.reqs.map (Req.see (s.src ++ ns)) }
+    else s
 
-def run (fixed : Bool) (s : St Node) (evs : List (Ev Node)) : St Node := evs.foldl (step H fixed) s
+def run [DecidableEq Node] (cfg : Cfg) (s : St Node) (evs : List (Ev Node)) : St Node :=
+  evs.foldl (step H cfg) s
+
+/-- the property's clause for one finished request: an answer is the from-scratch branch and root
+    of the first `length` hashes of a chain that was visible during the request -/
+def Req.Safe (r : Req Node) : Prop :=
+  match r.pc with
+  | .done (.answer br root) =>
+    ∃ S ∈ r.seen, r.length ≤ S.length ∧
+      branchAndRoot H (S.take r.length) (.int r.index) none false = .ok (br, root)
+  | _ => True
 
 end EV.HeaderCache
